@@ -42,10 +42,18 @@ package utxo
 //@   loop 2 invariant in_sum: 0 <= $i && $i <= len(tx.TxInputs) && sel(bigval, inputSum) == sumInTo(tx, $i) && sel(bigval, outputSum) == sumOutTo(tx, len(tx.TxOutputs)) && inputSum != nil && outputSum != nil && inputSum != outputSum && inputSum <= allocTop() && outputSum <= allocTop()
 //@   loop 2 invariant dedup: utxoDedup != nil && (forall k int :: 0 <= k && k < $i ==> in(utxoDedup, inKey(tx, k)) && utxoDedup[inKey(tx, k)]) && (forall a int, b int :: 0 <= a && a < b && b < $i ==> inKey(tx, a) != inKey(tx, b))
 
+// Speculative in-memory state (C05). Every effect a transaction has on the utxo layer's
+// memory (cached outputs, cached balances, the total) comes with a balance or total
+// update; memGen counts those, memClean is memGen when the caches were last dropped
+// (State.ClearCache, which also reloads the total from the table). "memGen unchanged or
+// memClean == memGen" therefore says: nothing speculative is left in memory.
+//@ ghost var memGen int
+//@ ghost var memClean int
 // The reported total changes by exactly the delta, in the stated direction, and
 // the new total goes into the batch under the total-supply key.
 //@ func UtxoVM.UpdateUtxoTotal
 //@   property C02
+//@   sets memGen = old(memGen) + 1
 //@   ensures total_moves_by_delta: old(uv.utxoTotal) != nil && delta != nil ==> sel(bigval, uv.utxoTotal) == old(sel(bigval, uv.utxoTotal)) + (inc ? sel(old(bigval), delta) : 0 - sel(old(bigval), delta)) && uv.utxoTotal == old(uv.utxoTotal)
 //@   ensures [C01] only_the_total_key_is_written: (forall k string :: k != xldgpb.MetaTablePrefix + UTXOTotalKey ==> sel(sel(batchOp, ifacePtr(batch)), k) == sel(sel(old(batchOp), ifacePtr(batch)), k) && sel(sel(batchVal, ifacePtr(batch)), k) == sel(sel(old(batchVal), ifacePtr(batch)), k))
 //@   ensures total_in_batch: sel(bigval, uv.utxoTotal) >= 0 ==> sel(sel(batchVal, ifacePtr(batch)), xldgpb.MetaTablePrefix + UTXOTotalKey) == canonBytes(sel(bigval, uv.utxoTotal))
@@ -53,10 +61,12 @@ package utxo
 // Cached balances move by exactly the delta of the output created / spent.
 //@ func UtxoVM.AddBalance
 //@   property C02
+//@   sets memGen = old(memGen) + 1
 //@   at big.Int.Add assert adds_delta_in_place: recv == $0 && $1 == delta
 //@   ensures only_cached_cells_change: forall r int :: !sel(cacheCells, r) ==> sel(bigval, r) == sel(old(bigval), r)
 //@ func UtxoVM.SubBalance
 //@   property C02
+//@   sets memGen = old(memGen) + 1
 //@   at big.Int.Sub assert subs_delta_in_place: recv == $0 && $1 == delta
 //@   ensures only_cached_cells_change: forall r int :: !sel(cacheCells, r) ==> sel(bigval, r) == sel(old(bigval), r)
 
